@@ -63,7 +63,8 @@ pub fn uncompact(cells: &[u64], target_resolution: i32) -> Result<Vec<u64>, Stri
         let num_children = get_num_children(resolution, target_resolution);
 
         if num_children == 1 {
-            result.push(cell);
+            // Same resolution: validate the id and hand back its canonical form rather than echoing the argument
+            result.push(cell_to_parent(cell, Some(resolution))?);
         } else {
             let children = cell_to_children(cell, Some(target_resolution))?;
             result.extend(children);
